@@ -13,6 +13,7 @@ import (
 	"strings"
 
 	"github.com/ollama/ollama/kvcache"
+	"github.com/ollama/ollama/llm"
 	"github.com/ollama/ollama/ml"
 	"github.com/ollama/ollama/model"
 	"github.com/ollama/ollama/runner/llamarunner"
@@ -81,12 +82,35 @@ func newWorld(cfg cfgT) (*world, error) {
 }
 
 func promptString(v any) string {
+	s, _ := promptAndImages(v)
+	return s
+}
+
+// promptAndImages: tokens < 1000 are letters; a code 1000+100*sb+v is an image (v, sb+1) referred to by an [img-k]
+// tag; the sb placeholder inputs that PostTokenize generates after it are skipped if the list already contains them.
+func promptAndImages(v any) (string, []llm.ImageData) {
 	l, _ := v.([]any)
 	var sb strings.Builder
+	var images []llm.ImageData
+	skip := 0
 	for _, x := range l {
-		sb.WriteByte(byte('a' + hx.Int(x)))
+		t := hx.Int(x)
+		if skip > 0 && t == placeholderTok {
+			skip--
+			continue
+		}
+		skip = 0
+		if t >= 1000 {
+			n := (t-1000)/100 + 1
+			id := len(images)
+			images = append(images, llm.ImageData{ID: id, Data: []byte{byte((t - 1000) % 100), byte(n)}})
+			fmt.Fprintf(&sb, "[img-%d]", id)
+			skip = n - 1
+		} else {
+			sb.WriteByte(byte('a' + t))
+		}
 	}
-	return sb.String()
+	return sb.String(), images
 }
 
 func (w *world) cells() [][][3]int {
@@ -184,7 +208,8 @@ func (w *world) submit(k int, o map[string]any) map[string]any {
 			stops = append(stops, sb.String())
 		}
 	}
-	idx, seq, kind, err := w.srv.VerifSubmit(promptString(o["prompt"]), hx.Int(o["npred"]), int32(hx.Int(o["keep"])), stops)
+	ps, images := promptAndImages(o["prompt"])
+	idx, seq, kind, err := w.srv.VerifSubmitMM(ps, images, hx.Int(o["npred"]), int32(hx.Int(o["keep"])), stops)
 	res := map[string]any{"kind": kind, "idx": idx}
 	if err != nil {
 		res["err"] = err.Error()
